@@ -33,7 +33,7 @@ def standardize_dataframe(df: OneOf(NoneType,
                           strict_cdr3_standardization: Bool, suppress_warnings: Bool,
                           df_old: OneOf(NoneType, TableT(["CDR3B", "x"]))):
     raises("ValueError", when=(df is None) == (df_old is None))
-    ensures(not same_object(result, src_table(df, df_old)), name="post[a new table]")
+    ensures(is_new_object(result, src_table(df, df_old)), name="post[a new table]")
     ensures(len(result) == len(src_table(df, df_old)) and same_index(result, src_table(df, df_old)), name="post[rows and index kept]")
     ensures(column_names(result) == [newname(c, col_mapper) for c in column_names(src_table(df, df_old))],
             name="post[columns kept in order, renamed by col_mapper]")
